@@ -38,6 +38,8 @@ PROPS["C01"] = dict(
         S("small-asan", "func", ["--fam", "mul", "--wide", "1"], (300, 1100), (3000, 1400)),
         S("small-nosse-ts-asan", "func", ["--fam", "mul", "--wide", "1"], (150, 1100), (1500, 1400)),
         S("small-msan", "func", ["--fam", "mul"], (500, 420), (8000, 1000)),
+        S("mid-debug-asan", "func", ["--fam", "mul"], (600, 700), (10000, 1400)),
+        S("mid-debug-asan", "func", ["--fam", "mul", "--policy", "win", "--wide", "1"], (200, 1100), (2000, 1400)),
     ],
     require_tags={"quick": ["strassen_depth=2", "cubic", "m4rm", "squaring"], "thorough": ["strassen_depth=3", "cubic", "m4rm", "squaring"]},
 )
@@ -58,6 +60,9 @@ def FUNC(fam, q_small, t_small, q_host=None, t_host=None, q_ts=None, t_ts=None, 
     # 8 words are left behind; the scalar (no-SSE2) variants of those loops get their own stage
     st.append(S("small-asan", "func", ["--fam", fam, "--wide", "1"], (max(240, q_small[0] // 24), 1100), (t_small[0] // 24, 1400)))
     st.append(S("small-nosse-ts-asan", "func", ["--fam", fam, "--wide", "1"], (max(120, q_small[0] // 48), 1100), (t_small[0] // 48, 1400)))
+    # assertions compiled in (--enable-debug), third cache triple: the library's own assert()s act as additional monitors
+    st.append(S("mid-debug-asan", "func", ["--fam", fam], (max(300, q_small[0] // 8), max(q_small[1], 400)), (t_small[0] // 8, t_small[1])))
+    st.append(S("mid-debug-asan", "func", ["--fam", fam, "--policy", "win", "--wide", "1"], (max(150, q_small[0] // 40), 1100), (t_small[0] // 40, 1400)))
     # MemorySanitizer build: a value clause can hold by luck when a result depends on an uninitialised scalar that happens to be 0
     st.append(S("small-msan", "func", ["--fam", fam], (max(300, q_small[0] // 8), q_small[1]), (t_small[0] // 8, t_small[1])))
     if extra:
